@@ -315,7 +315,7 @@ func C08(t Tier) int {
 	depth["bulk"] = 1
 	for _, base := range []string{"empty", "populated", "bulk"} {
 		sys := c08System(base)
-		RunGraph(run, sys, []explore.Bounds{{Depth: depth[base], V: 1, Deadline: deadline(t, 110*time.Second, 8*time.Minute)}}, 4)
+		RunGraph(run, sys, []explore.Bounds{{Depth: depth[base], V: 1, Deadline: deadline(t, 90*time.Second, 8*time.Minute)}}, 4)
 	}
 	run.Assumptions = []string{
 		"alphabet: the valid, state-shaping subset of the AOL, DID and PNFT alphabets (transferred token, handed-over denom, deleted and re-created denom, deactivated DID, rich DID document, empty record key/value, '/' and JSON in record bytes, writer deleted and re-added)",
